@@ -171,4 +171,94 @@ theorem loadRules_eq (cfg : LoaderCfg) (alloc : Nat → Nat) (hnz : ∀ i, alloc
       · rw [if_pos hz, if_pos (this.1 hz)]
       · rw [if_neg hz, if_neg (fun e => hz (this.2 e))]
 
+/-! ### reading a field of a patched image -/
+
+theorem getElem?_patch (img : Bytes) (off : Nat) (bs : Bytes) (h : off + bs.length ≤ img.length) (j : Nat) :
+    (patch img off bs)[j]? = if off ≤ j ∧ j < off + bs.length then bs[j - off]? else img[j]? := by
+  unfold patch
+  have hl : (img.take off).length = off := by rw [List.length_take]; omega
+  rw [List.append_assoc, List.getElem?_append, hl]
+  by_cases h1 : j < off
+  · rw [if_pos h1, if_neg (by omega), List.getElem?_take, if_pos h1]
+  · rw [if_neg h1, List.getElem?_append]
+    by_cases h2 : j - off < bs.length
+    · rw [if_pos h2, if_pos ⟨by omega, by omega⟩]
+    · rw [if_neg h2, if_neg (by omega), List.getElem?_drop]
+      congr 1; omega
+
+theorem getElem?_field (d : Bytes) (o k t : Nat) : ((d.drop o).take k)[t]? = if t < k then d[o + t]? else none := by
+  rw [List.getElem?_take]
+  split
+  · rw [List.getElem?_drop]
+  · rfl
+
+theorem rdLE_patch_other (k : Nat) (img : Bytes) (off : Nat) (bs : Bytes) (h : off + bs.length ≤ img.length) (o : Nat)
+    (hd : o + k ≤ off ∨ off + bs.length ≤ o) : rdLE k (patch img off bs) o = rdLE k img o := by
+  unfold rdLE
+  congr 1
+  apply List.ext_getElem?
+  intro t
+  rw [getElem?_field, getElem?_field]
+  split
+  · rw [getElem?_patch _ _ _ h, if_neg (by omega)]
+  · rfl
+
+theorem rdLE_patch_same (img : Bytes) (off : Nat) (bs : Bytes) (h : off + bs.length ≤ img.length) :
+    rdLE bs.length (patch img off bs) off = leVal bs := by
+  unfold rdLE
+  congr 1
+  apply List.ext_getElem?
+  intro t
+  rw [getElem?_field]
+  split
+  · rename_i ht
+    rw [getElem?_patch _ _ _ h, if_pos ⟨by omega, by omega⟩]
+    congr 1; omega
+  · rename_i ht
+    have : bs.length ≤ t := by omega
+    simp [this]
+
+theorem getD_patch_other (img : Bytes) (off : Nat) (bs : Bytes) (h : off + bs.length ≤ img.length) (j : Nat)
+    (hj : j < off ∨ off + bs.length ≤ j) : (patch img off bs).getD j 0 = img.getD j 0 := by
+  simp only [List.getD_eq_getElem?_getD]
+  rw [getElem?_patch _ _ _ h, if_neg (by omega)]
+
+theorem save_length_ge (a : Arena) : headerSize + tableEntrySize * a.bufs.length ≤ (save a).length := by
+  rw [save_split, List.length_append, length_header, List.length_append, length_table, bodies_length]
+  omega
+
+/-- **rules.c after a size corruption the arena loader let through**: the summary test refuses the file only if the
+    field that was overwritten is the summary buffer's own size and the new value is 0 -/
+theorem loadRules_after_size_patch (cfg : LoaderCfg) (alloc : Nat → Nat) (hnz : ∀ i, alloc i ≠ 0) (a : Arena)
+    (hn : a.bufs.length ≤ maxBuffers) (hsum : summarySection < a.bufs.length)
+    (hsz : (a.bufAt summarySection).data.length ≠ 0) (hsz2 : (a.bufAt summarySection).data.length < 2 ^ 32)
+    (i : Nat) (hi : i < a.bufs.length) (z : Nat) (hz : z < 2 ^ 32) (A' : Arena)
+    (hA : load cfg alloc (patch (save a) (sizeFieldAt i) (leBytes 4 z)) = .ok A') :
+    loadRules cfg alloc (patch (save a) (sizeFieldAt i) (leBytes 4 z)) =
+      if i = summarySection ∧ z = 0 then .error .corruptFile else .ok A' := by
+  rw [loadRules_eq cfg alloc hnz, hA]
+  simp only
+  have hlen := save_length_ge a
+  have hfit : sizeFieldAt i + (leBytes 4 z).length ≤ (save a).length := by
+    rw [length_leBytes]; unfold sizeFieldAt
+    simp only [headerSize, tableEntrySize, tblSizeOff] at hlen ⊢
+    omega
+  have hn16 : a.bufs.length ≤ 16 := hn
+  have hnb : ((patch (save a) (sizeFieldAt i) (leBytes 4 z)).getD hdrNumBuffersOff 0).toNat = a.bufs.length := by
+    rw [getD_patch_other _ _ _ hfit _ (Or.inl (by unfold sizeFieldAt; simp only [hdrNumBuffersOff, headerSize]; omega)), save_split, header_cons]
+    simp [hdrNumBuffersOff]; omega
+  rw [hnb, if_neg (by omega)]
+  by_cases his : i = summarySection
+  · subst his
+    have := rdLE_patch_same (save a) (sizeFieldAt summarySection) (leBytes 4 z) hfit
+    rw [length_leBytes] at this
+    show (if rdLE 4 _ _ = 0 then _ else _) = _
+    rw [this, leVal_leBytes4, Nat.mod_eq_of_lt hz]
+    by_cases hz0 : z = 0
+    · rw [if_pos hz0, if_pos ⟨rfl, hz0⟩]
+    · rw [if_neg hz0, if_neg (fun h => hz0 h.2)]
+  · have := rdLE_patch_other tblSizeSize (save a) (sizeFieldAt i) (leBytes 4 z) hfit (sizeFieldAt summarySection)
+      (by rw [length_leBytes]; unfold sizeFieldAt; simp only [tblSizeSize, headerSize, tableEntrySize, tblSizeOff]; omega)
+    rw [this, save_size_field a summarySection hsum, Nat.mod_eq_of_lt hsz2, if_neg hsz, if_neg (fun h => his h.1)]
+
 end YaraModel.Arena
